@@ -499,7 +499,7 @@ func engineC41(c *vctx) error {
 		utf8Case(p)
 	}
 	rng := c.rng.fork()
-	for i := c.n(50, 2000); i > 0; i-- {
+	for i := c.n(50, 1000); i > 0; i-- {
 		s := rng.bytes(1 + rng.intn(5))
 		if rng.chance(80) {
 			s[0] = []byte{0xc2, 0xdf, 0xe0, 0xe1, 0xec, 0xed, 0xee, 0xef, 0xf0, 0xf1, 0xf3, 0xf4, 0xf5, 0x7f, 0x80, 0xc1}[rng.intn(16)]
@@ -524,7 +524,7 @@ func engineC41(c *vctx) error {
 	for _, p := range corpus {
 		c41NodeCase(c, "node", c41Node(rng.fork(), []byte(p[0]), []byte(p[1])))
 	}
-	for i := c.n(90, 3000); i > 0; i-- {
+	for i := c.n(90, 1500); i > 0; i-- {
 		r := rng.fork()
 		name, target := c41Bytes(r, 8), []byte{}
 		if r.chance(60) {
@@ -535,7 +535,7 @@ func engineC41(c *vctx) error {
 	big := c.n(1, 4)
 	for i := 0; i < big; i++ {
 		r := rng.fork()
-		c41NodeCase(c, "node-huge", c41Node(r, bytes.Repeat(c41Bytes(r, 8), 1+c.n(200, 4000)), r.bytes(c.n(500, 20000))))
+		c41NodeCase(c, "node-huge", c41Node(r, bytes.Repeat(c41Bytes(r, 8), 1+c.n(200, 250)), r.bytes(c.n(500, 1500)))) // larger terms overflow coqc's stack
 	}
 	// boundary timestamps inside years 0..9999 must survive exactly
 	for _, ts := range []time.Time{
@@ -595,7 +595,7 @@ func engineC41(c *vctx) error {
 		unqCase([]byte(p))
 	}
 	rng = c.rng.fork()
-	for i := c.n(90, 3000); i > 0; i-- {
+	for i := c.n(90, 1500); i > 0; i-- {
 		var txt []byte
 		for k := 1 + rng.intn(4); k > 0; k-- {
 			txt = append(txt, unqPieces[rng.intn(len(unqPieces))]...)
@@ -605,7 +605,7 @@ func engineC41(c *vctx) error {
 
 	// (d) fixTime
 	rng = c.rng.fork()
-	for i := c.n(60, 2000); i > 0; i-- {
+	for i := c.n(60, 1000); i > 0; i-- {
 		t := c41Time(rng, rng.chance(30))
 		f := data.VerifC41FixTime(t)
 		y, m, d := t.Date()
@@ -652,14 +652,14 @@ func engineC41(c *vctx) error {
 		{[]byte("a")}, {[]byte("a"), []byte("b")}, {{0}, {0, 0}}, {[]byte("a"), []byte("a")}} {
 		buildCase("build-empty-name", names)
 	}
-	for i := c.n(70, 3000); i > 0; i-- {
+	for i := c.n(70, 1500); i > 0; i-- {
 		buildCase("build", c41Names(rng))
 	}
 
 	// (f) treeSaver.save, two completion orders
 	rng = c.rng.fork()
 	saveCorpus := [][][]byte{{{}, []byte("a")}, {{}, []byte("a"), []byte("b")}, {{}}, {[]byte("a"), []byte("b")}}
-	for i := c.n(70, 3000) + len(saveCorpus); i > 0; i-- {
+	for i := c.n(70, 1500) + len(saveCorpus); i > 0; i-- {
 		names := c41Names(rng)
 		plain := false
 		if i <= len(saveCorpus) {
@@ -724,7 +724,7 @@ func engineC41(c *vctx) error {
 
 	// (g) tree iterator with unknown keys
 	rng = c.rng.fork()
-	for i := c.n(60, 2500); i > 0; i-- {
+	for i := c.n(60, 1200); i > 0; i-- {
 		var sb bytes.Buffer
 		var ms []string
 		ws := func() string { return rng.pick("", "", " ", "\n", "\t ") }
